@@ -13,6 +13,7 @@ import (
 
 func init() {
 	register(&PropertyCheck{ID: "C15", Level: "other", Run: checkC15, Canaries: []Canary{
+		{Name: "header-decodes-first-length-byte-itself", Rule: "R6.2", Where: "remainingLen", Edits: []Edit{{"packet.go", "\tm, err := f.remainingLen.ReadFrom(r)\n\treturn n + m, err", "\tm, err := f.remainingLen.ReadFrom(r)\n\tif f.remainingLen > 127 {\n\t\tvar rest vbint\n\t\tk, e2 := rest.ReadFrom(r)\n\t\tf.remainingLen += rest * 128\n\t\treturn n + m + k, e2\n\t}\n\treturn n + m, err"}}},
 		{Name: "encoder-radix-127", Rule: "R15.1", Where: "encoder", Edits: []Edit{{"wiretypes.go", "\t\tencodedByte := byte(x % 128)\n\t\tx = x / 128", "\t\tencodedByte := byte(x % 128)\n\t\tx = x / 127"}}},
 		{Name: "decoder-mask-126", Rule: "R15.1", Where: "(*vbint).UnmarshalBinary", Edits: []Edit{{"wiretypes.go", "\tfor _, encodedByte := range data {\n\t\tvalue += uint(encodedByte) & uint(127) * multiplier", "\tfor _, encodedByte := range data {\n\t\tvalue += uint(encodedByte) & uint(126) * multiplier"}}},
 		{Name: "stream-multiplier-64", Rule: "R15.1", Where: "(*vbint).ReadFrom", Edits: []Edit{{"wiretypes.go", "\t\tif encodedByte&128 == 0 {\n\t\t\tbreak\n\t\t}\n\t\tmultiplier = multiplier * 128", "\t\tif encodedByte&128 == 0 {\n\t\t\tbreak\n\t\t}\n\t\tmultiplier = multiplier * 64"}}},
@@ -175,6 +176,7 @@ func checkC15(p *Prog, c *Check) {
 	c.Rule("R15.2", "sibling agreement: the streaming and the in-memory decoder have the same mask, radix, start, guard bound and guard strictness")
 	c.Rule("R15.3", "encoder loop: the continuation bit is OR-ed in exactly when the quotient is non-zero, and the loop is left exactly when that same quotient is zero")
 	c.Rule("R9.3", "both decoders keep the size guard on every cycle; only the exit on a byte without continuation bit reaches success (shared with C09)")
+	c.Rule("R6.2", "the fixed header's remaining length is produced by the streaming decoder alone: header bytes are read one at a time, the cell holding the length is written only by that decoder, and the body size is that cell without arithmetic (shared with C06) — so the size guard and termination test of R9.3/R15.x cannot be bypassed by a second decoder")
 	c.Rule("R6.3", "the streaming decoder consumes one byte per iteration and its successful exit tests the byte read in that iteration (shared with C06)")
 	c.Rule("R15.5", "the in-memory path advances by width() of the decoded value inside the sequential reader's bounds check (C04 R4.0), width() being the encoder's dry run")
 	c.Explanation = "The bijection on 0…268 435 455 and exact decoding are numerical facts about loop results and are not decided. Decided is what shows in the shape of the three routines: all radix/mask/bound constants are read off the SSA form (after normalising <<7, *128, %128, &127), compared with each other and with the specification's 7-bit groups and 4-byte maximum; the encoder's continuation logic and the decoders' guard and termination tests are checked as path conditions."
@@ -316,6 +318,22 @@ func checkC15(p *Prog, c *Check) {
 					checkLengthLoop(p, c, u, lp)
 				}
 			}
+		}
+	}
+	// R6.2 (shared with C06): the remaining length of the fixed header comes from the streaming decoder alone
+	{
+		sc := NewCheck("C15", p)
+		checkC06(p, sc)
+		n := 0
+		for _, o := range sc.Obls {
+			if o.Rule != "R6.2" {
+				continue
+			}
+			n++
+			c.add("R6.2", o.Construct, o.Pos, o.Status, o.Detail)
+		}
+		if n == 0 {
+			c.Unk("R6.2", "remaining length cell", "-", "no obligation about the fixed header's length cell was generated")
 		}
 	}
 	// R15.5
